@@ -1,4 +1,5 @@
 import JmesVerif.Lemmas.JsonRoundTrip
+import JmesVerif.Lemmas.FloatExact
 import JmesVerif.Lemmas.SerdeValue
 import JmesVerif.Model.Interp
 import JmesVerif.Model.Parser
@@ -38,6 +39,33 @@ theorem C08_parse_print_pretty (v : Val) (hv : v.Printable FloatRoundTrips) :
 theorem C08_parse_print_noFloat (v : Val) (hv : v.Printable (fun _ => False)) :
     JsonText.parse (JsonPrint.compact v).toList = some v := parse_compact_noFloat v hv
 
+/-- **The number parser is correctly rounded on the property's exact domain**: a significand of at most 2^53 (in particular every
+numeral of at most 15 digits) with a decimal exponent within ±22 is read as THE double nearest to the exact value — the
+serde_json algorithm (`(significand as f64) × or ÷ 10^|e|`) performs one rounding of an exact product / quotient of two
+exactly representable doubles. -/
+theorem C08_parser_exact_domain (positive : Bool) (S : Nat) (E : Int) (hS : S ≤ 2 ^ 53) (hE : E.natAbs ≤ 22) :
+    JsonText.f64FromParts positive S E =
+      some (if positive then F64.ofRatSigned false ((S : Rat) * JsonPrint.pow10 E)
+            else (F64.ofRatSigned false ((S : Rat) * JsonPrint.pow10 E)).neg) :=
+  FloatExact.f64FromParts_exact positive S E hS hE
+
+/-- **Doubles round-trip through print and parse on the exact domain** — the float hypothesis of `C08_parse_print` is a
+THEOREM there: `InExactDomain f` (decidable) says the shortest representation of `f` has at most 15 digits, its decimal exponent
+is within ±22 and the significand the parser accumulates from the PRINTED text (which may carry one more zero for the forced
+`.0`) is itself a double. -/
+theorem C08_float_roundtrip_exact_domain (f : F64) (hc : f.Canon) (hfin : f.isFinite) (hd : InExactDomain f) :
+    FloatRoundTrips f := floatRoundTrips_of_exactDomain f hc hfin hd
+
+theorem C08_parse_print_exact_domain (v : Val)
+    (hv : v.Printable (fun f => f.Canon ∧ f.isFinite ∧ InExactDomain f)) :
+    JsonText.parse (JsonPrint.compact v).toList = some v := parse_print_exactDomain v hv
+
+/-- … and the last clause of the domain is needed: the double `7205759403792820.0` (15 significant digits, exponent +1) prints as
+`7205759403792820.0`, from which serde_json's default parser accumulates the 17-digit significand `72057594037928200` and returns
+`7205759403792819.0` — within the documented 2 units in the last place, but not equal (machine-checked by kernel evaluation;
+replayed on the real code by the `json` stream, which is why the check compares re-parsed doubles with a 2-ulp tolerance). -/
+theorem C08_float_roundtrip_counterexample : ¬ FloatRoundTrips counterexample := not_floatRoundTrips_counterexample
+
 /-- strings keep every code point through print and parse (escapes incl. `\u00XX`) -/
 theorem C08_string_roundtrip (s : String) : JsonText.parse (JsonPrint.compact (.str s)).toList = some (.str s) :=
   parse_compact_noFloat (.str s) (by simp [Val.Printable, JsonRT.Shape, JsonRT.depth])
@@ -52,5 +80,9 @@ end JmesVerif
 #print axioms JmesVerif.C08_parse_print
 #print axioms JmesVerif.C08_parse_print_pretty
 #print axioms JmesVerif.C08_parse_print_noFloat
+#print axioms JmesVerif.C08_parser_exact_domain
+#print axioms JmesVerif.C08_float_roundtrip_exact_domain
+#print axioms JmesVerif.C08_parse_print_exact_domain
+#print axioms JmesVerif.C08_float_roundtrip_counterexample
 #print axioms JmesVerif.C08_string_roundtrip
 #print axioms JmesVerif.C08_value_roundtrip
